@@ -1,7 +1,15 @@
 #!/bin/sh
-# offline setup: nothing to download or compile; warm the interpreters and check the tools are present
+# offline setup: nothing to download or compile.  Checks the tools are present and warms the Lean build cache
+# (.cache/lean_*.json, keyed by the sha256 of the exact text handed to lean) so that the per-property checks do not
+# each pay the cold start of Mathlib.
 cd "$(dirname "$0")"
 python3-vt -c "import z3; print('z3', z3.get_version_string())" || exit 1
 /venv/bin/python -c "import spake2, cryptography; print('repo importable')" || exit 1
-mkdir -p evidence replays
+mkdir -p evidence replays .cache
+python3-vt -c "
+import sys; sys.path.insert(0, '.')
+from pyvc import leanback
+r, names = leanback.algebra_status(); print('lean Algebra.lean ok=%s %.0fs' % (r['ok'], r['seconds']))
+st = leanback.edwards_status(); print('lean Edwards ok=%s %ss' % (st['ok'], st.get('seconds')))
+" || echo "lean warm-up failed (checks will report it)"
 exit 0
